@@ -121,9 +121,17 @@ def run(ck):
     line_bind = next((b for b in H.pat_bindings(scan['pat']) if slot_path(scan['pat'], b['hid']) == (0,)), None)
     stmt_bind = next((b for b in H.pat_bindings(scan['pat']) if slot_path(scan['pat'], b['hid']) == (1,)), None)
     top = [s.get('e', s) for s in scan['body'].get('stmts', [])] + ([scan['body']['e']] if 'e' in scan['body'] else [])
-    top = [t for t in top if t.get('k') == 'Match' and stmt_bind is not None and (H.root_local(t['e']) or {}).get('hid') == stmt_bind['hid']]
-    ck.ob('R2.1', 'inspect-then-update', len(top) == 2, L.loc(scan['body']), '%d top-level matches on the statement in the loop body (inspection, then alias update)' % len(top))
-    if len(top) != 2:
+    def on_stmt(t):
+        if stmt_bind is None:
+            return False
+        if t.get('k') == 'Match':
+            return (H.root_local(t['e']) or {}).get('hid') == stmt_bind['hid']
+        if t.get('k') == 'If' and t['c'].get('k') == 'LetCond':
+            return (H.root_local(t['c']['e']) or {}).get('hid') == stmt_bind['hid']
+        return False
+    top = [t for t in top if on_stmt(t)]
+    ck.ob('R2.1', 'inspect-then-update', len(top) == 2 and top[0].get('k') == 'Match', L.loc(scan['body']), '%d top-level dispatches on the statement in the loop body (inspection, then alias update)' % len(top))
+    if len(top) != 2 or top[0].get('k') != 'Match':
         return
     insp, upd = top
 
@@ -166,15 +174,19 @@ def run(ck):
         return
     ok = prop_b is not None and (H.root_local(nm['e']) or {}).get('hid') == prop_b['hid']
     ck.ob('R2.1', 'notify-lookup', ok, L.loc(nm), 'looks up the NOTIFY signal of the property being read')
-    arms = {pp(a['pat'], maxlen=40): a for a in nm['arms']}
-    some = next((a for p, a in arms.items() if re.match(r'^Ok\(Some\(\w+\)\)$', p)), None)
-    none = next((a for p, a in arms.items() if p == 'Ok(None)'), None)
-    err = next((a for p, a in arms.items() if p.startswith('Err(')), None)
-    ck.ob('R2.1', 'notify-outcomes-exhaustive', some is not None and none is not None and err is not None and len(arms) == 3, L.loc(nm), 'arms: %s' % sorted(arms))
-    for name, arm in (('no-notify', none), ('lookup-error', err)):
-        push = [c for c in H.calls_in(arm['body']) if c.get('m') == 'push' and 'Diagnostics' in (L.ty(c['recv'], adjusted=True) or L.ty(c['recv']) or '')] if arm else []
-        iserr = bool(push) and H.is_call_to(push[0]['args'][0], 'Diagnostic::error')
-        ck.ob('R2.7', '%s-is-an-error' % name, iserr, L.loc(arm) if arm else L.loc(nm), 'pushes Diagnostic::error(..)' if iserr else 'no error diagnostic on this outcome: the binding would be generated stale', fn=ab['path'])
+    arms = [(pp(a['pat'], maxlen=40), a) for a in nm['arms']]
+    some = next((a for p, a in arms if re.match(r'^Ok\(Some\(\w+\)\)$', p) and 'guard' not in a), None)
+    nones = [a for p, a in arms if p in ('Ok(None)', 'Ok(_)', '_')]
+    errs_ = [a for p, a in arms if p.startswith('Err(') or p == '_']
+    guarded = [p for p, a in arms if 'guard' in a]
+    ck.ob('R2.1', 'notify-outcomes-exhaustive', some is not None and bool(nones) and bool(errs_) and len(arms) == 3 and not guarded, L.loc(nm),
+          'arms: %s' % [p for p, a in arms] if not guarded else 'arms %s: a guarded arm splits an outcome of the notify lookup; every part must still be handled' % [p + (' if ..' if 'guard' in a else '') for p, a in arms])
+    for name, group in (('no-notify', nones), ('lookup-error', errs_)):
+        for i, arm in enumerate(group or [None]):
+            push = [c for c in H.calls_in(arm['body']) if c.get('m') == 'push' and 'Diagnostics' in (L.ty(c['recv'], adjusted=True) or L.ty(c['recv']) or '')] if arm else []
+            iserr = bool(push) and H.is_call_to(push[0]['args'][0], 'Diagnostic::error')
+            ck.ob('R2.7', '%s-is-an-error%s' % (name, '#%d' % (i + 1) if i else ''), iserr, L.loc(arm) if arm else L.loc(nm),
+                  'pushes Diagnostic::error(..)' if iserr else 'no error diagnostic on this outcome%s: the binding would be generated stale' % (' (arm guarded by `%s`)' % pp(arm['guard'], maxlen=60) if arm and 'guard' in arm else ''), fn=ab['path'])
     n_leaf = 0
     if some is not None:
         sig_b = H.pat_bindings(some['pat'])[0]
@@ -234,63 +246,115 @@ def run(ck):
     ck.floor('R2.1', n_leaf, 3, 'receiver-kind leaves')
 
     # ---- R2.2 alias table ----------------------------------------------------------------------------------------------
-    asg_arm = next((a for a in upd['arms'] if pat_variants(a['pat']) == ['Assign']), None)
-    if asg_arm is None:
-        ck.ob('R2.2', 'assign-arm', False, L.loc(upd), 'no Assign arm in the alias update')
+    # the region executed for `Statement::Assign(l, r)`: a match arm, or the then-branch of `if let Assign(l, r) = stmt`
+    if upd.get('k') == 'Match':
+        asg_arm = next((a for a in upd['arms'] if pat_variants(a['pat']) == ['Assign']), None)
+        region, apat = (asg_arm['body'], asg_arm['pat']) if asg_arm is not None else (None, None)
     else:
-        ab_b = {slot_path(asg_arm['pat'], b['hid']): b for b in H.pat_bindings(asg_arm['pat'])}
-        lb, rb2 = ab_b.get((0,)), ab_b.get((1,))
-        stmts = [s.get('e', s) for s in asg_arm['body'].get('stmts', [])] + ([asg_arm['body']['e']] if 'e' in asg_arm['body'] else []) if asg_arm['body'].get('k') == 'Block' else [asg_arm['body']]
-        writes = [n for n in walk(asg_arm['body']) if n.get('k') == 'Assign' and n['l'].get('k') == 'Index']
-        ok = len(writes) == 1 and any(w is writes[0] for w in stmts) and lb is not None and (H.root_local(writes[0]['l']['i']) or {}).get('hid') == lb['hid']
-        ck.ob('R2.2', 'every-assign-overwrites-its-target', ok, L.loc(writes[0]) if writes else L.loc(asg_arm),
-              'locals[target] = .. is the arm\'s own top-level statement: runs for every Assign' if ok else
-              'the alias entry of the assigned local is not overwritten on every Assign: a stale "this local is object X" survives a re-assignment and the re-pointed object is never observed', fn=ab['path'])
-        if writes:
-            w = writes[0]
-            table = H.root_local(w['l']['e'])
+        apat = upd['c']['pat']
+        region = upd['then'] if pat_variants(apat) == ['Assign'] else None
+    if region is None:
+        ck.ob('R2.2', 'assign-arm', False, L.loc(upd), 'no region handling Statement::Assign in the alias update')
+    else:
+        ab_b = {slot_path(apat, b['hid']): b for b in H.pat_bindings(apat)}
+        lb = ab_b.get((0,))
+
+        def is_table_write(n):
+            return n.get('k') == 'Assign' and n['l'].get('k') == 'Index' and lb is not None and (H.root_local(n['l']['i']) or {}).get('hid') == lb['hid']
+
+        def paths(e, ctx):
+            """[(ctx, [writes])] for every path through e; ctx = list of (variants, arm/if node, extra bindings)."""
+            k = e.get('k')
+            if is_table_write(e):
+                return [(ctx, [e])]
+            if k == 'Block':
+                acc = [(ctx, [])]
+                seq = [st.get('e') or st.get('init') or st for st in e.get('stmts', [])] + ([e['e']] if 'e' in e else [])
+                for part in seq:
+                    nxt = []
+                    for c0, w0 in acc:
+                        for c1, w1 in paths(part, c0):
+                            nxt.append((c1, w0 + w1))
+                    acc = nxt[:64]
+                return acc
+            if k == 'Match':
+                out = []
+                for a in e['arms']:
+                    out += paths(a['body'], ctx + [(pat_variants(a['pat']) + nested_variants(a['pat']), a)])
+                return out
+            if k == 'If':
+                extra = [('if-let', e)] if e['c'].get('k') == 'LetCond' else [('if', e)]
+                out = paths(e['then'], ctx + [(['then'], e)])
+                out += paths(e['els'], ctx + [(['else'], e)]) if 'els' in e else [(ctx + [(['else'], e)], [])]
+                return out
+            if k in ('Semi', 'Expr'):
+                return paths(e['e'], ctx)
+            return [(ctx, [])]
+
+        def nested_variants(pat):
+            out = []
+            for x in walk(pat):
+                if x.get('k') in ('PTS', 'PPath', 'PStruct') and x is not pat:
+                    out.append((x.get('def') or '?').split('::')[-1])
+            return out
+        ps = paths(region, [])
+        missing = [c for c, w in ps if not w]
+        multi = [c for c, w in ps if len(w) > 1]
+        allw = [w0 for c, w in ps for w0 in w]
+        ck.ob('R2.2', 'every-assign-overwrites-its-target', bool(ps) and not missing and bool(allw), L.loc(allw[0]) if allw else L.loc(region),
+              'locals[target] is written on each of the %d paths through the Assign handling' % len(ps) if not missing and allw else
+              'the alias entry of the assigned local is not overwritten on every Assign (path %s writes nothing): a stale "this local is object X" survives a re-assignment and the re-pointed object is never observed' %
+              ([v for c in (missing[0] if missing else []) for v in c[0]],), fn=ab['path'])
+        if allw:
+            table = H.root_local(allw[0]['l']['e'])
             tb = bs.get((table or {}).get('hid'))
             ok = tb is not None and tb['kind'] == 'let' and 'None' in pp(tb['node']['init'], maxlen=80) and not any(x.get('k') in ('For', 'Loop') for x in H.ancestors(ab, tb['node']))
             ck.ob('R2.2', 'table-per-block-initially-unknown', ok, L.loc(tb['node']) if tb else L.loc(ab['body']), 'created inside analyze_block, all None: locals coming from other blocks are dynamic')
-            # leaves of the right-hand side
-            leaves = []
-
-            def collect(e, ctx):
-                e2 = e
-                if e2.get('k') == 'Block' and not e2.get('stmts') and 'e' in e2:
-                    return collect(e2['e'], ctx)
-                if e2.get('k') == 'Match':
-                    for a in e2['arms']:
-                        collect(a['body'], ctx + [(pat_variants(a['pat']), a)])
-                    return
-                if e2.get('k') == 'If':
-                    leaves.append((ctx, e2, 'conditional'))
-                    return
-                s2 = H.strip_refs(e2)
-                if s2.get('k') == 'Path' and s2.get('res') == 'local':
-                    b2 = bs.get(s2.get('hid'))
-                    if b2 is not None and b2['kind'] == 'let' and b2['node'].get('init') is not None and b2['bind'].get('mode', '').find('mut') < 0 and len(ctx) == 0:
-                        return collect(b2['node']['init'], ctx)
-                leaves.append((ctx, e2, None))
-            collect(w['r'], [])
             bad = []
-            n_known = 0
-            for ctx, e, flag in leaves:
-                s = H.strip_refs(e)
-                is_none = s.get('k') == 'Path' and (s.get('def') or '').endswith('Option::None')
-                if is_none:
-                    continue
-                vs = [v for c in ctx for v in c[0]]
-                if s.get('k') == 'Index' and (H.root_local(s['e']) or {}).get('hid') == (table or {}).get('hid') and vs[:1] == ['Copy'] and 'Local' in vs:
-                    n_known += 1
-                    continue
-                if s.get('k') == 'Call' and (s.get('def') or '').endswith('Option::Some') and vs[:1] == ['Copy'] and 'NamedObject' in vs:
-                    n_known += 1
-                    continue
-                bad.append('%s => %s' % (vs, pp(e, maxlen=40)))
-            ck.ob('R2.2', 'known-only-by-copy-of-object', not bad and n_known == 2, L.loc(w), 'known entries: Copy(NamedObject) and Copy(known Local); everything else resets to unknown' if not bad else 'entries become known by %s' % bad, fn=ab['path'])
-            wild = [ctx for ctx, e, flag in leaves if any('_' in c[0] for c in ctx)]
-            ck.ob('R2.2', 'other-rvalues-reset', bool(wild), L.loc(w), 'the catch-all rvalue arm yields None')
+            known = set()
+            wild_reset = False
+            for ctx, ws in ps:
+                for w in ws:
+                    leaves = []
+
+                    def collect(e, c2):
+                        if e.get('k') == 'Block' and not e.get('stmts') and 'e' in e:
+                            return collect(e['e'], c2)
+                        if e.get('k') == 'Match':
+                            for a in e['arms']:
+                                collect(a['body'], c2 + [(pat_variants(a['pat']) + nested_variants(a['pat']), a)])
+                            return
+                        s2 = H.strip_refs(e)
+                        if s2.get('k') == 'Path' and s2.get('res') == 'local':
+                            b2 = bs.get(s2.get('hid'))
+                            if b2 is not None and b2['kind'] == 'let' and b2['node'].get('init') is not None and b2['bind'].get('mode', '').find('mut') < 0:
+                                return collect(b2['node']['init'], c2)
+                        leaves.append((c2, e))
+                    collect(w['r'], ctx)
+                    for c2, e in leaves:
+                        sv = H.strip_refs(e)
+                        vs = [v for c in c2 for v in c[0]]
+                        if sv.get('k') == 'Path' and (sv.get('def') or '').endswith('Option::None'):
+                            if '_' in vs:
+                                wild_reset = True
+                            continue
+                        if sv.get('k') == 'Index' and (H.root_local(sv['e']) or {}).get('hid') == (table or {}).get('hid') and 'Copy' in vs and 'Local' in vs:
+                            known.add('Copy(Local)')
+                            continue
+                        if sv.get('k') == 'Call' and (sv.get('def') or '').endswith('Option::Some') and 'Copy' in vs:
+                            inner = H.root_local(sv['args'][0])
+                            ib = bs.get((inner or {}).get('hid')) or {}
+                            if 'NamedObject' in vs and ib.get('kind') in ('arm', 'letcond') and H.strip_refs(sv['args'][0]).get('k') in ('Field', 'AddrOf', 'Path') and 'name' in pp(sv['args'][0]):
+                                known.add('Copy(NamedObject)')
+                                continue
+                            # Some(n) with n taken out of the table entry of the copied local
+                            if 'Local' in vs and ib.get('kind') == 'letcond' and H.strip_refs(ib['node']['e']).get('k') == 'Index' and (H.root_local(ib['node']['e']) or {}).get('hid') == (table or {}).get('hid'):
+                                known.add('Copy(Local)')
+                                continue
+                        bad.append('%s => %s' % (vs, pp(e, maxlen=40)))
+            ck.ob('R2.2', 'known-only-by-copy-of-object', not bad and known == {'Copy(Local)', 'Copy(NamedObject)'}, L.loc(allw[0]),
+                  'known entries: Copy(NamedObject) and Copy(known Local); everything else resets to unknown' if not bad else 'entries become known by %s' % bad, fn=ab['path'])
+            ck.ob('R2.2', 'other-rvalues-reset', wild_reset, L.loc(allw[0]), 'the catch-all rvalue arm yields None')
         ck.ob('R2.2', 'update-after-inspection', H.source_before(insp, upd), L.loc(upd), 'the entry is updated after the statement\'s own read was inspected')
 
     # ---- R2.3 observe insertion ---------------------------------------------------------------------------------------------
